@@ -72,20 +72,23 @@ type Round struct {
 }
 
 type Spec struct {
-	Kind     string            `json:"kind"` // plain | interrupt | stale_metrics | live_tagstree
-	Dir      string            `json:"dir"`
-	Hours    int               `json:"hours"`
-	T0       int64             `json:"t0"`
-	Phase    string            `json:"phase"`
-	Rounds   []Round           `json:"rounds"`
-	Extras   []SegSpec         `json:"extras,omitempty"`   // pass process: ingested, flushed, left unrotated
-	Stale    []SegSpec         `json:"stale,omitempty"`    // pass process: metrics rotated, in-memory metadata not refreshed
-	Live     []SegSpec         `json:"live,omitempty"`     // pass process: metrics ingested, left unrotated
-	NoModel  bool              `json:"no_model,omitempty"` // outcome depends on Go map iteration order inside one phase: oracle only
-	Refresh  bool              `json:"refresh,omitempty"`  // pass process: reload the in-memory metrics metadata after rotating Stale (what the 5 s refresh loop does)
-	PassOrgs []int64           `json:"pass_orgs"`
-	Orgs     []int64           `json:"orgs"`
-	MetNames map[string]string `json:"met_names,omitempty"` // seg id -> metric name (chosen by the build process)
+	Kind       string            `json:"kind"` // plain | interrupt | stale_metrics | live_tagstree
+	Dir        string            `json:"dir"`
+	Hours      int               `json:"hours"`
+	T0         int64             `json:"t0"`
+	Phase      string            `json:"phase"`
+	Rounds     []Round           `json:"rounds"`
+	Extras     []SegSpec         `json:"extras,omitempty"`      // pass process: ingested, flushed, left unrotated
+	Stale      []SegSpec         `json:"stale,omitempty"`       // pass process: metrics rotated, in-memory metadata not refreshed
+	Live       []SegSpec         `json:"live,omitempty"`        // pass process: metrics ingested, left unrotated
+	PassAfter  int64             `json:"pass_after,omitempty"`  // pass process: do not start the pass before T0+PassAfter ms
+	PassBefore int64             `json:"pass_before,omitempty"` // pass process: both passes must be over before T0+PassBefore ms
+	LateOff    int64             `json:"late_off,omitempty"`    // late_expiry: newest event of the segment that expires between the interrupted pass and its repetition
+	NoModel    bool              `json:"no_model,omitempty"`    // outcome depends on Go map iteration order inside one phase: oracle only
+	Refresh    bool              `json:"refresh,omitempty"`     // pass process: reload the in-memory metrics metadata after rotating Stale (what the 5 s refresh loop does)
+	PassOrgs   []int64           `json:"pass_orgs"`
+	Orgs       []int64           `json:"orgs"`
+	MetNames   map[string]string `json:"met_names,omitempty"` // seg id -> metric name (chosen by the build process)
 }
 
 func (s *Spec) hz0() int64 { return s.T0 - int64(s.Hours)*3600000 }
@@ -560,6 +563,11 @@ func workerMain(specPath, outPath string) {
 			spec.MetNames[id] = n
 		}
 		out.Obs = append(out.Obs, observe("pre", &spec, hostRoot))
+		if spec.PassAfter > 0 {
+			for time.Now().UnixMilli() < spec.T0+spec.PassAfter {
+				time.Sleep(100 * time.Millisecond)
+			}
+		}
 		out.Tb = time.Now().UnixMilli()
 		for rep, tag := range []string{"post", "post2"} {
 			if rep == 0 {
@@ -574,6 +582,9 @@ func workerMain(specPath, outPath string) {
 			out.Obs = append(out.Obs, observe(tag, &spec, hostRoot))
 		}
 		out.Ta = time.Now().UnixMilli()
+		if spec.PassBefore > 0 && out.Ta >= spec.T0+spec.PassBefore {
+			out.Err = fmt.Sprintf("late_expiry timing: the early pass ended %d ms after the scenario start, limit %d", out.Ta-spec.T0, spec.PassBefore)
+		}
 		if spec.Kind == "live_tagstree" {
 			// later the shard that kept receiving datapoints is rotated as well
 			if err := rotateMetrics(); err != nil {
@@ -640,10 +651,11 @@ func copyTree(src, dst string) error {
 // ---------------------------------------------------------------- strace parsing and replay
 
 type Op struct {
-	Kind string `json:"kind"` // unlink | rmdir | create | write | rename | mkdir
-	Path string `json:"path"`
-	To   string `json:"to,omitempty"`
-	Data []byte `json:"data,omitempty"`
+	Kind   string `json:"kind"` // unlink | rmdir | create | write | rename | mkdir
+	Path   string `json:"path"`
+	To     string `json:"to,omitempty"`
+	Data   []byte `json:"data,omitempty"`
+	Append bool   `json:"append,omitempty"` // touch: opened with O_APPEND
 }
 
 var hexRe = regexp.MustCompile(`(?:\\x[0-9a-f]{2})+`)
@@ -736,7 +748,7 @@ func parseTrace(tracePath, dataDir string) ([]Op, error) {
 				if !strings.Contains(m[3], "O_TRUNC") {
 					k = "touch"
 				}
-				op = &Op{Kind: k, Path: joinPath(m[1], m[2])}
+				op = &Op{Kind: k, Path: joinPath(m[1], m[2]), Append: strings.Contains(m[3], "O_APPEND")}
 			}
 		} else if m := reWrite.FindStringSubmatch(line); m != nil {
 			m[1] = unhex(m[1])
@@ -773,27 +785,51 @@ func hexOf(s string) string {
 	return sb.String()
 }
 
-func applyOp(o Op) error {
+// replays file-level operations; keeps the write position of every file opened by a replayed
+// operation (a file opened without O_TRUNC and without O_APPEND is overwritten from its start)
+type replayer struct{ off map[string]int64 }
+
+func newReplayer() *replayer { return &replayer{off: map[string]int64{}} }
+
+func (rp *replayer) apply(o Op) error {
 	switch o.Kind {
 	case "unlink", "rmdir":
 		return os.Remove(o.Path)
 	case "create":
+		rp.off[o.Path] = 0
 		return os.WriteFile(o.Path, nil, 0o644)
 	case "touch":
 		f, err := os.OpenFile(o.Path, os.O_CREATE|os.O_WRONLY, 0o644)
 		if err == nil {
 			f.Close()
 		}
+		if o.Append {
+			rp.off[o.Path] = -1
+		} else {
+			rp.off[o.Path] = 0
+		}
 		return err
 	case "write":
-		f, err := os.OpenFile(o.Path, os.O_APPEND|os.O_WRONLY, 0o644)
+		off, known := rp.off[o.Path]
+		if !known || off < 0 {
+			f, err := os.OpenFile(o.Path, os.O_APPEND|os.O_WRONLY, 0o644)
+			if err != nil {
+				return err
+			}
+			defer f.Close()
+			_, err = f.Write(o.Data)
+			return err
+		}
+		f, err := os.OpenFile(o.Path, os.O_WRONLY, 0o644)
 		if err != nil {
 			return err
 		}
 		defer f.Close()
-		_, err = f.Write(o.Data)
+		_, err = f.WriteAt(o.Data, off)
+		rp.off[o.Path] = off + int64(len(o.Data))
 		return err
 	case "rename":
+		delete(rp.off, o.Path)
 		return os.Rename(o.Path, o.To)
 	case "mkdir":
 		return os.Mkdir(o.Path, 0o755)
@@ -804,10 +840,11 @@ func applyOp(o Op) error {
 // ---------------------------------------------------------------- abstraction of a trace to model effects
 
 type TEff struct {
-	Kind string   `json:"kind"` // rm | rmempty | segtmp | segset | segremove | mmtmp | mmset | mmremove | vttmp | vtset | vttrunc (unfixed code)
-	Path string   `json:"path,omitempty"`
-	List []string `json:"list,omitempty"`
-	Org  int64    `json:"org,omitempty"`
+	Kind  string   `json:"kind"` // rm | rmempty | segtmp | segset | segremove | mmtmp | mmset | mmremove | vttmp | vtset | vttrunc (unfixed code)
+	Path  string   `json:"path,omitempty"`
+	List  []string `json:"list,omitempty"`
+	Org   int64    `json:"org,omitempty"`
+	Trunc bool     `json:"trunc,omitempty"` // segtmp: the temporary file was opened with O_TRUNC
 }
 
 var reVtFile = regexp.MustCompile(`/virtualtablenames(?:-(\d+))?\.txt$`)
@@ -866,7 +903,7 @@ func abstractTrace(ops []Op, hostRoot string, targets []string) ([]TEff, []int) 
 		case "create":
 			written[o.Path] = nil
 			if strings.HasSuffix(o.Path, smrSeg+".tmp") {
-				effs = append(effs, TEff{Kind: "segtmp"})
+				effs = append(effs, TEff{Kind: "segtmp", Trunc: true})
 			} else if strings.HasSuffix(o.Path, smrMm+".tmp") {
 				effs = append(effs, TEff{Kind: "mmtmp"})
 			} else if org, ok := vtOrg(o.Path); ok {
@@ -874,6 +911,12 @@ func abstractTrace(ops []Op, hostRoot string, targets []string) ([]TEff, []int) 
 				effs = append(effs, TEff{Kind: "vttrunc", Org: org})
 			} else if org, ok := vtTmpOrg(o.Path); ok {
 				effs = append(effs, TEff{Kind: "vttmp", Org: org})
+			}
+		case "touch":
+			// opened without O_TRUNC: the code under check never does that for the temporary file
+			if strings.HasSuffix(o.Path, smrSeg+".tmp") {
+				written[o.Path] = nil
+				effs = append(effs, TEff{Kind: "segtmp", Trunc: false})
 			}
 		case "write":
 			written[o.Path] = append(written[o.Path], o.Data...)
@@ -1032,7 +1075,7 @@ func coqStore(in *interner, o *Obs, targets []string, unrot []string) string {
 		ur = append(ur, fmt.Sprintf("lseg %s 0 0 0 %d", in.path(d), t))
 	}
 	return fmt.Sprintf("(mkstore %s\n   %s\n   %s %s\n   %s\n   %s %s %s\n   %s)", vhlib.CoqList(sm), vhlib.CoqList(mm),
-		in.paths(o.Mem), in.paths(o.MMem), in.paths(visibleDirs(o.Dirs, targets)), vhlib.CoqList(ur), vhlib.CoqBool(o.SegTmp), vhlib.CoqBool(o.MmTmp), in.vt(o.Vt))
+		in.paths(o.Mem), in.paths(o.MMem), in.paths(visibleDirs(o.Dirs, targets)), vhlib.CoqList(ur), map[bool]string{false: "None", true: "(Some [])"}[o.SegTmp], vhlib.CoqBool(o.MmTmp), in.vt(o.Vt))
 }
 
 func coqOutcome(in *interner, o *Obs, targets []string) string {
@@ -1063,7 +1106,7 @@ func coqTEff(in *interner, e TEff) string {
 		}
 		return fmt.Sprintf("TVtSet %s%%Z %s", vhlib.CoqZ(e.Org), vhlib.CoqList(items))
 	case "segtmp":
-		return "TSegTmp"
+		return "TSegTmp " + vhlib.CoqBool(e.Trunc)
 	case "segset":
 		return "TSegSet " + in.paths(e.List)
 	case "segremove":
@@ -1189,7 +1232,9 @@ func listed(l []SegEntry, d string) bool {
 }
 
 // the property evaluated on one observed store after a pass for the orgs in passed
-func evalObs(spec *Spec, dirOf map[int]string, o *Obs, passed []int64, where string) []fail {
+// win: the passes behind the observation ran between T0+win[0] and T0+win[1] ms, i.e. their horizons
+// lie between hz0+win[0] and hz0+win[1]
+func evalObs(spec *Spec, dirOf map[int]string, o *Obs, passed []int64, where string, win [2]int64) []fail {
 	var fs []fail
 	add := func(c, d string) { fs = append(fs, fail{c, where + ": " + d}) }
 	extras := map[int]bool{}
@@ -1244,10 +1289,16 @@ func evalObs(spec *Spec, dirOf map[int]string, o *Obs, passed []int64, where str
 		}
 		newest := newestIn[d]
 		inScope := hasOrg(passed, s.Org)
-		if inScope && newest <= olderMax && !gone {
+		margin := int64(0)
+		if s.Kind == "met" {
+			margin = 1000 // seconds resolution
+		}
+		isOlder := newest < win[0]-margin
+		isNewer := newest > win[1]+margin
+		if inScope && isOlder && !gone {
 			add("retention_kept_expired", desc+" dir "+d+" still exists")
 		}
-		if newest >= newerMin && gone {
+		if isNewer && gone {
 			add("retention_deleted_newer", desc+" dir "+d+" was removed")
 		}
 		if !inScope && gone {
@@ -1490,6 +1541,20 @@ func genLonelyMetric(r *vhlib.Rng) *Spec {
 	return s
 }
 
+// The interrupted pass and its repetition see different horizons: segment 3 (rotated last, so its
+// line is the tail of segmeta.json) is newer than the horizon while the traced pass runs and has
+// expired when the pass is repeated after the restart; segment 2 stays newer.  The repeated pass
+// therefore preserves fewer lines than the interrupted one wrote into segmeta.json.tmp.
+func genLateExpiry(r *vhlib.Rng, lateOff int64) *Spec {
+	s := &Spec{Kind: "late_expiry", Hours: 24, PassOrgs: []int64{0}, Orgs: []int64{0}, LateOff: lateOff}
+	s.Rounds = []Round{
+		{Rotate: true, Segs: []SegSpec{{ID: 1, Kind: "log", Name: "ixa", Offs: []int64{-7200000}}}},
+		{Rotate: true, Segs: []SegSpec{{ID: 2, Kind: "log", Name: "ixb", Offs: []int64{-60000, 3600000}}}},
+		{Rotate: true, Segs: []SegSpec{{ID: 3, Kind: "log", Name: "ixc", Offs: []int64{-600000, lateOff}}}},
+	}
+	return s
+}
+
 func genLiveTT(r *vhlib.Rng) *Spec {
 	s := &Spec{Kind: "live_tagstree", Hours: 24, PassOrgs: []int64{0}, Orgs: []int64{0}, Refresh: true}
 	s.Rounds = []Round{{Rotate: true, Segs: []SegSpec{
@@ -1565,6 +1630,8 @@ func runScenario(idx int, spec *Spec, r *vhlib.Rng, cfg vhlib.Config) *scenarioR
 	scDir := filepath.Join(cfg.Out, fmt.Sprintf("sc%03d", idx))
 	_ = os.MkdirAll(scDir, 0o755)
 	data := filepath.Join(scDir, "d")
+	_ = os.RemoveAll(data)
+	_ = os.RemoveAll(filepath.Join(scDir, "snap"))
 	spec.Dir = data
 	spec.T0 = time.Now().UnixMilli()
 	herr := func(f string, a ...interface{}) *scenarioResult {
@@ -1584,7 +1651,8 @@ func runScenario(idx int, spec *Spec, r *vhlib.Rng, cfg vhlib.Config) *scenarioR
 	if _, err := runWorker(spec, scDir, "look", ""); err != nil {
 		return herr("%v", err)
 	}
-	interrupt := spec.Kind == "interrupt"
+	late := spec.Kind == "late_expiry"
+	interrupt := spec.Kind == "interrupt" || late
 	snap := filepath.Join(scDir, "snap")
 	if interrupt {
 		if err := copyTree(data, snap); err != nil {
@@ -1597,9 +1665,15 @@ func runScenario(idx int, spec *Spec, r *vhlib.Rng, cfg vhlib.Config) *scenarioR
 	if interrupt {
 		tracePath = filepath.Join(scDir, "trace.txt")
 	}
+	if late {
+		spec.PassBefore = spec.LateOff - 2000 // the traced pass runs while the late segment is still newer than the horizon
+	}
 	ref, err := runWorker(spec, scDir, "pass", tracePath)
 	if err != nil {
 		return herr("%v", err)
+	}
+	if late {
+		spec.PassBefore, spec.PassAfter = 0, spec.LateOff+1500 // every pass after an interruption runs when it has expired
 	}
 	for id, n := range ref.MetNames {
 		if spec.MetNames == nil {
@@ -1619,7 +1693,8 @@ func runScenario(idx int, spec *Spec, r *vhlib.Rng, cfg vhlib.Config) *scenarioR
 		return herr("queries fail before the pass: %v", pre.Errs)
 	}
 	// before the pass everything ingested must be searchable (otherwise the scenario says nothing)
-	for _, f := range evalObs(spec, dirOf, pre, nil, "before the pass") {
+	refWin := [2]int64{ref.Tb - spec.T0, ref.Ta - spec.T0}
+	for _, f := range evalObs(spec, dirOf, pre, nil, "before the pass", refWin) {
 		if f.Class == "survivor_not_searchable" || f.Class == "metadata_mismatch" {
 			if spec.Kind == "stale_metrics" || spec.Kind == "live_tagstree" {
 				continue
@@ -1627,8 +1702,8 @@ func runScenario(idx int, spec *Spec, r *vhlib.Rng, cfg vhlib.Config) *scenarioR
 			return herr("store not as expected before the pass: %s", f.Detail)
 		}
 	}
-	res.Fails = append(res.Fails, evalObs(spec, dirOf, post, spec.PassOrgs, "after the pass")...)
-	res.Fails = append(res.Fails, evalObs(spec, dirOf, post2, spec.PassOrgs, "after the repeated pass")...)
+	res.Fails = append(res.Fails, evalObs(spec, dirOf, post, spec.PassOrgs, "after the pass", refWin)...)
+	res.Fails = append(res.Fails, evalObs(spec, dirOf, post2, spec.PassOrgs, "after the repeated pass", refWin)...)
 	res.Fails = append(res.Fails, compareObs("repeat_differs", post, post2, "second pass in the same process", true)...)
 	if spec.Kind == "live_tagstree" && len(ref.Obs) == 4 {
 		o4 := &ref.Obs[3]
@@ -1733,13 +1808,15 @@ func runScenario(idx int, spec *Spec, r *vhlib.Rng, cfg vhlib.Config) *scenarioR
 				cur[e.Org] = nil
 			}
 		}
-		ks := chooseBoundaries(r, ops, count, hostRoot, targets, cfg.Thorough())
+		ks := chooseBoundaries(r, ops, count, hostRoot, targets, cfg.Thorough() || late)
+		var lateRef *Obs // late_expiry: outcome of the late pass on the store that was not interrupted (k = 0)
 		for _, k := range ks {
 			if err := copyTree(snap, data); err != nil {
 				return herr("restore: %v", err)
 			}
+			rp := newReplayer()
 			for i := 0; i < k; i++ {
-				if err := applyOp(ops[i]); err != nil {
+				if err := rp.apply(ops[i]); err != nil {
 					return herr("replay of operation %d (%s %s): %v", i, ops[i].Kind, ops[i].Path, err)
 				}
 			}
@@ -1753,9 +1830,33 @@ func runScenario(idx int, spec *Spec, r *vhlib.Rng, cfg vhlib.Config) *scenarioR
 			}
 			where := fmt.Sprintf("pass stopped after %d of %d file operations (last: %s), process restarted, full pass", k, len(ops), opDesc(ops, k))
 			tpost := &to.Obs[1]
-			tf := evalObs(spec, dirOf, tpost, spec.PassOrgs, where)
-			tf = append(tf, compareObs("interrupt_repeat_differs", post, tpost, where, false)...)
-			res.Fails = append(res.Fails, classifyTrial(tf, ops, k, post, tpost, where)...)
+			tWin := [2]int64{to.Tb - spec.T0, to.Ta - spec.T0}
+			if tWin[1] > newerMin-1000 {
+				return herr("scenario took %d ms: event times no longer unambiguous", tWin[1])
+			}
+			cmpRef := post
+			if late {
+				if k == 0 {
+					lateRef = tpost
+				}
+				if lateRef == nil {
+					return herr("late_expiry: no outcome of the uninterrupted late pass")
+				}
+				cmpRef = lateRef
+			}
+			tf := evalObs(spec, dirOf, tpost, spec.PassOrgs, where, tWin)
+			tf = append(tf, compareObs("interrupt_repeat_differs", cmpRef, tpost, where, false)...)
+			if late {
+				// what a further start finds: the metadata file is read back, every listed segment must have its files
+				lspec := *spec
+				lspec.Phase = "settle"
+				if lo, err := runWorker(&lspec, scDir, "look", ""); err != nil {
+					tf = append(tf, fail{"interrupt_restart_fails", where + ", one more restart: " + err.Error()})
+				} else if len(lo.Obs) > 0 {
+					tf = append(tf, evalObs(spec, dirOf, &lo.Obs[0], spec.PassOrgs, where+", one more restart", tWin)...)
+				}
+			}
+			res.Fails = append(res.Fails, classifyTrial(tf, ops, k, cmpRef, &to.Obs[0], tpost, where)...)
 			a := 0
 			if k > 0 {
 				a = count[k-1]
@@ -1795,7 +1896,11 @@ func runScenario(idx int, spec *Spec, r *vhlib.Rng, cfg vhlib.Config) *scenarioR
 	for _, n := range norder {
 		nol = append(nol, strconv.Itoa(in.table(n)))
 	}
-	res.CoqTerm = fmt.Sprintf("%s %s\n  %d %s (%s, %s)\n  %s\n  %s\n  %s\n  %s", checker, storeTerm, spec.hz0(), vhlib.CoqList(orgs),
+	hz2 := spec.hz0()
+	if late {
+		hz2 = spec.hz0() + spec.LateOff + 1000
+	}
+	res.CoqTerm = fmt.Sprintf("%s %s\n  %d %d %s (%s, %s)\n  %s\n  %s\n  %s\n  %s", checker, storeTerm, spec.hz0(), hz2, vhlib.CoqList(orgs),
 		in.paths(order), vhlib.CoqList(nol), traceTerm, coqOutcome(in, post, targets), coqOutcome(in, post2, targets), vhlib.CoqListNL(tl))
 	res.Sample = map[string]interface{}{"kind": spec.Kind, "hours": spec.Hours, "rounds": spec.Rounds, "extras": spec.Extras, "pass_orgs": spec.PassOrgs,
 		"deleted": res.Deleted, "kept": res.Kept, "trace_ops": res.TraceLen, "interruption_points": res.NTrials}
@@ -1803,9 +1908,26 @@ func runScenario(idx int, spec *Spec, r *vhlib.Rng, cfg vhlib.Config) *scenarioR
 }
 
 // failures of an interruption trial that belong to a known mechanism get that mechanism's class
-func classifyTrial(fs []fail, ops []Op, k int, ref, o *Obs, where string) []fail {
+func classifyTrial(fs []fail, ops []Op, k int, ref, pre, o *Obs, where string) []fail {
 	if len(fs) == 0 {
 		return fs
+	}
+	if pre.SegTmp {
+		// the interrupted pass left segmeta.json.tmp behind and the repeated pass ends with a metadata file
+		// that is not the list of survivors: the temporary file was not emptied before it was rewritten
+		for _, f := range fs {
+			if f.Class == "metadata_mismatch" || f.Class == "interrupt_repeat_differs_segmeta" {
+				cl := map[string]bool{}
+				var names []string
+				for _, g := range fs {
+					if !cl[g.Class] {
+						cl[g.Class] = true
+						names = append(names, g.Class)
+					}
+				}
+				return []fail{{"interrupt_stale_segmeta_tmp_survives", where + ": segmeta.json.tmp of the interrupted pass existed at the restart; consequences: " + strings.Join(names, ", ") + "; first: " + f.Detail}}
+			}
+		}
 	}
 	if k > 0 && ops[k-1].Kind == "create" {
 		if _, ok := vtOrg(ops[k-1].Path); ok {
@@ -1902,8 +2024,9 @@ func main() {
 		ops, err := parseTrace(filepath.Join(scDir, "trace.txt"), spec.Dir)
 		fmt.Println("ops", len(ops), err)
 		_ = copyTree(filepath.Join(scDir, "snap"), spec.Dir)
+		rp := newReplayer()
 		for i := 0; i < k && i < len(ops); i++ {
-			fmt.Println(i, ops[i].Kind, ops[i].Path, ops[i].To, applyOp(ops[i]))
+			fmt.Println(i, ops[i].Kind, ops[i].Path, ops[i].To, rp.apply(ops[i]))
 		}
 		return
 	}
@@ -1946,6 +2069,8 @@ func main() {
 		specs = append(specs, genSpec(r.Fork(), "interrupt", i%3 != 2, false))
 		rngs = append(rngs, r.Fork())
 	}
+	specs = append(specs, genLateExpiry(r.Fork(), 30000))
+	rngs = append(rngs, r.Fork())
 	specs = append(specs, genStale(r.Fork(), false), genStale(r.Fork(), true), genLiveTT(r.Fork()), genLonelyMetric(r.Fork()))
 	rngs = append(rngs, r.Fork(), r.Fork(), r.Fork(), r.Fork())
 	results := make([]*scenarioResult, len(specs))
@@ -1958,6 +2083,11 @@ func main() {
 			sem <- struct{}{}
 			defer func() { <-sem }()
 			results[i] = runScenario(i, specs[i], rngs[i], cfg)
+			if results[i].HErr != "" && specs[i].Kind == "late_expiry" && strings.Contains(results[i].HErr, "late_expiry timing") {
+				// the machine was too slow for the short schedule: once more with a long one
+				specs[i] = genLateExpiry(rngs[i], 150000)
+				results[i] = runScenario(i, specs[i], rngs[i], cfg)
+			}
 		}(i)
 	}
 	wg.Wait()
